@@ -724,6 +724,30 @@ func c16Alloc(p *load.Program, r *core.Report) {
 	rule := "C16.B3 no-unsanitised-length-to-allocator"
 	r.Floor(rule, 8)
 	seq := map[string]int{}
+	sinkIn := map[*ssa.Function]bool{}
+	defer func() {
+		// the decompressors read the unpacked size the peer declares: an obligation of their own, so
+		// that "no allocator takes it" stays a recorded fact (and a re-introduced pre-allocation is a
+		// new instance of the rule above)
+		for _, f := range funcsOfPkgs(p, "lib") {
+			if f.Parent() != nil || !strings.HasPrefix(f.Name(), "Decompress") {
+				continue
+			}
+			reads := false
+			eachInstr(f, func(in ssa.Instruction) {
+				if c, ok := in.(*ssa.Call); ok {
+					if sf := staticCallee(c.Common()); sf != nil && sf.Name() == "Uint32" && sf.Pkg != nil && sf.Pkg.Pkg.Path() == "encoding/binary" {
+						reads = true
+					}
+				}
+			})
+			if !reads || sinkIn[f] {
+				continue
+			}
+			key := "C16.B3|" + fname(f) + "|declared-size"
+			r.OK(rule, key, fname(f), p.Pos(f.Pos()), "the unpacked size declared by the peer is used for validation only", "it reaches no allocator in this function (the buffer grows with the data really unpacked)")
+		}
+	}()
 	for _, f := range funcsOfPkgs(p, "net/edf", "net/proto", "net/handshake", "lib") {
 		eachInstr(f, func(in ssa.Instruction) {
 			var lenArgs []ssa.Value
@@ -761,6 +785,7 @@ func c16Alloc(p *load.Program, r *core.Report) {
 				return
 			}
 			fn := fname(f)
+			sinkIn[f] = true
 			seq[fn+what]++
 			key := fmt.Sprintf("C16.B3|%s|%s#%d", fn, what, seq[fn+what])
 			inst := what + " with a size read from the wire is preceded by a comparison against the remaining input or a constant cap"
